@@ -19,6 +19,7 @@ def main(argv=None) -> int:
     ap.add_argument("--tier", default=os.environ.get("VERIF_TIER") or "quick", choices=["quick", "thorough"])
     ap.add_argument("--replay")
     ap.add_argument("--only", default=None, help="run only the named part(s) of the check (debugging)")
+    ap.add_argument("--as-variant", default=None, help="internal: run as a host-configuration variant and dump the result there")
     a = ap.parse_args(argv)
     logging.disable(logging.CRITICAL)
     prop = a.prop.upper()
@@ -42,6 +43,9 @@ def main(argv=None) -> int:
         with open(a.replay) as f:
             doc = json.load(f)
         rp = doc["replay"]
+        if rp.get("host") == "python -O" and not sys.flags.optimize:
+            # found under an interpreter with assertions disabled: replay it under the same
+            os.execv(sys.executable, [sys.executable, "-O", "-m", "vf.cli"] + list(argv if argv is not None else sys.argv[1:]))
         fn_mod, _, fn_name = rp["ref"].partition(":")
         fn = getattr(importlib.import_module(fn_mod), fn_name)
         obs = fn(rp["args"])
@@ -61,6 +65,14 @@ def main(argv=None) -> int:
         print(f"HARNESS-ERROR: property={prop} unexpected exception in the machinery")
         traceback.print_exc()
         return 2
+    if a.as_variant:
+        with open(a.as_variant, "w") as f:
+            json.dump({"violations": [{"sig": v.sig, "message": v.message, "replay": v.replay} for v in res.violations],
+                       "total": res.violation_total, "harness_errors": res.harness_errors,
+                       "evaluations": res.coverage.get("evaluations")}, f, default=repr)
+        return 0
+    if a.tier == "thorough" and not a.only and os.environ.get("VERIF_HOST_VARIANTS", "1") != "0":
+        core.host_variants(res, prop)
     return core.finish(res, a.tier, t0)
 
 
